@@ -25,6 +25,7 @@ DEFAULT_PROFILE = {
         'status': 8, 'stale_status': 2,
         'pr_event': 8, 'child_event': 2, 'commit_event': 6,
         'admin': 1, 'decline': 0.5, 'w_commit': 0.5, 'delete_source': 0.3,
+        'push_to_destination': 0,
     },
     'comments': ['@robot bypass_build_status', '@robot bypass_peer_approval',
                  '/wait', '@robot status', '/help', '@robot: unknown_word',
@@ -230,6 +231,14 @@ class Gen:
             self.w.do('delete_branch', branch=pr['src'])
             self.run('pr', pr['id'])
 
+    def m_push_to_destination(self):
+        """somebody pushes a commit directly on a destination branch"""
+        dests = [d for d in self.dests() if not d.startswith('hotfix/')]
+        if dests:
+            d = dests[-1] if self.rng.random() < 0.6 else \
+                self.rng.choice(dests)
+            self.w.do('push_commit', branch=d, user=LEAD)
+
     def m_decline(self):
         pr = self._pick_pr()
         if pr:
@@ -385,7 +394,32 @@ class Gen:
             steps += 1
             self.step()
 
-    def op_backport(self):
+    def drive_to_merge(self, pr, rounds=6):
+        """cooperative set-up step: green builds everywhere until the PR is
+        merged"""
+        for _ in range(rounds):
+            snap = self.w.snapshot()
+            p = snap.pr(pr['id'])
+            if p is None or p['state'] != 'OPEN':
+                return True
+            rec = self.run('pr', pr['id'])
+            if rec['status'] == 'ApprovalRequired':
+                for u in (AUTHOR, PEER1, PEER2, LEAD):
+                    self.w.do('approve', pr=pr['id'], user=u)
+            heads = self.w.refs()[0]
+            for n in sorted(heads):
+                if n == pr['src'] or n.startswith('q/') or \
+                        (n.startswith('w/') and n.endswith('/' + pr['src'])):
+                    self.w.do('set_status', ref='tip:' + n,
+                              state='SUCCESSFUL')
+            qs = [n for n in sorted(heads) if n.startswith('q/') and
+                  not n.startswith('q/w/')]
+            if qs and rec['status'] in ('Queued', 'NothingToDo',
+                                        'QueueBuildFailed'):
+                self.run('commit', 'tip:' + qs[-1])
+        return False
+
+    def op_backport(self, finish=True):
         """a branch forked from the oldest destination is merged into a later
         destination first, the oldest destination then moves, and the same
         branch is finally proposed on the oldest destination (backport)"""
@@ -398,15 +432,15 @@ class Gen:
         pr = self.w.do('open_pr', src=src, dst=later, base=old)
         a = {'id': pr, 'src': src, 'dst': later}
         self.prs.append(a)
-        self.run('pr', pr)
-        self.m_forward(a, 4)
+        self.drive_to_merge(a)
         c = self.new_pr(old)
-        self.m_forward(c, 4)
+        self.drive_to_merge(c)
         prb = self.w.do('open_pr', src=src, dst=old, reuse=True)
         b = {'id': prb, 'src': src, 'dst': old}
         self.prs.append(b)
         self.run('pr', prb)
-        self.m_forward(b, 4)
+        if finish:
+            self.m_forward(b, 4)
 
     def op_partial_merge(self):
         """a PR gets a new commit after it entered the queue, then the queue
@@ -552,6 +586,55 @@ class Gen:
         self.run('pr', pr)
         self.run('pr', pr)
 
+    def op_conflict_resolved(self):
+        """a PR conflicts with a later destination; meanwhile another PR is
+        merged on its own destination; the author resolves the conflict on
+        the integration branch as the message asks; then it is merged"""
+        dests = [d for d in self.dests() if not d.startswith('hotfix/')]
+        if len(dests) < 2:
+            return self.op_two_prs_same_base()
+        k = self.rng.randrange(1, len(dests))
+        later = dests[k]
+        self.w.do('push_commit', branch=later, user=LEAD, files={
+            'shared.txt': 'line\nline\ntheirs on %s\nline\nline\n' % later})
+        self.n += 1
+        src = 'bugfix/TEST-%d-conflict' % self.n
+        pr = self.w.do('open_pr', src=src, dst=dests[0], files={
+            'shared.txt': 'line\nline\nmine\nline\nline\n'})
+        a = {'id': pr, 'src': src, 'dst': dests[0]}
+        self.prs.append(a)
+        rec = self.run('pr', pr)
+        c = self.new_pr(dests[0])
+        self.drive_to_merge(c)
+        if rec['status'] == 'Conflict':
+            prev = src if k == 1 else oracle.wname(
+                oracle.version_of(dests[k - 1]), src)
+            self.w.do('resolve_conflict',
+                      wbranch=oracle.wname(oracle.version_of(later), src),
+                      dst=later, source=prev)
+        self.drive_to_merge(a)
+
+    def op_source_pushed_during_job(self):
+        """everything is green and approved; while the deciding job runs, the
+        author pushes one more (never built) commit on the source branch,
+        right before one of the robot's reads of the pull-request list"""
+        dests = [d for d in self.dests() if not d.startswith('hotfix/')]
+        dst = dests[0] if self.rng.random() < 0.7 else self.rng.choice(dests)
+        a = self.new_pr(dst)
+        for _ in range(2):
+            rec = self.run('pr', a['id'])
+            if rec['status'] == 'ApprovalRequired':
+                for u in (AUTHOR, PEER1, PEER2, LEAD):
+                    self.w.do('approve', pr=a['id'], user=u)
+        heads = self.w.refs()[0]
+        for n in sorted(heads):
+            if n == a['src'] or (n.startswith('w/') and
+                                 n.endswith('/' + a['src'])):
+                self.w.do('set_status', ref='tip:' + n, state='SUCCESSFUL')
+        self.w.do('arm_push_at_pr_read', branch=a['src'],
+                  nth=1)
+        self.run('pr', a['id'])
+
     def op_batch_merge(self):
         """several PRs on different destinations (newest first) queued, then
         merged by ONE queue evaluation"""
@@ -581,6 +664,31 @@ class Gen:
         self.m_forward(b, 2)
         self.m_forward(a, 3)
 
+    def op_dest_pushed_while_queued(self):
+        """a PR is queued, the queue is evaluated without merging, somebody
+        pushes directly on a queued destination, then the builds turn green"""
+        dests = [d for d in self.dests() if not d.startswith('hotfix/')]
+        a = self.new_pr(dests[0], evaluate=False)
+        self.queue_pr(a)
+        heads = self.w.refs()[0]
+        qs = [b for b in sorted(heads) if b.startswith('q/') and
+              not b.startswith('q/w/')]
+        if not qs:
+            return
+        # the queue commits may be the (already green) integration commits:
+        # make one build still running so that the first evaluation only
+        # validates the queue
+        for b in qs:
+            self.w.do('set_status', ref='tip:' + b, state='SUCCESSFUL')
+        self.w.do('set_status', ref='tip:' + qs[-1], state='INPROGRESS')
+        self.run('commit', 'tip:' + qs[0])
+        self.w.do('push_commit', branch=self.rng.choice(dests), user=LEAD)
+        for b in sorted(self.w.refs()[0]):
+            if b.startswith('q/'):
+                self.w.do('set_status', ref='tip:' + b, state='SUCCESSFUL')
+        self.run('commit', 'tip:' + qs[-1])
+        self.run('pr', a['id'])
+
 
 OPENERS = {
     'two_prs_same_base': Gen.op_two_prs_same_base,
@@ -588,6 +696,10 @@ OPENERS = {
     'three_queued': Gen.op_three_queued,
     'dest_moves_while_open': Gen.op_dest_moves_while_open,
     'backport': Gen.op_backport,
+    'conflict_resolved': Gen.op_conflict_resolved,
+    'source_pushed_during_job': Gen.op_source_pushed_during_job,
+    'backport_pending': lambda g: g.op_backport(finish=False),
+    'dest_pushed_while_queued': Gen.op_dest_pushed_while_queued,
     'queue_conflict': Gen.op_queue_conflict,
     'manual_on_middle_w': Gen.op_manual_on_middle_w,
     'conflict_on_later_target': Gen.op_conflict_on_later_target,
